@@ -235,6 +235,27 @@ def every_path(paths, pred):
 # light path-sensitivity: boolean/None flag locals
 # ------------------------------------------------------------------------------------------
 
+def _flag_value(e, env):
+    """True / False when the boolean expression `e` over flag locals is decided by the constants known in env, else None"""
+    if isinstance(e, ast.Constant) and isinstance(e.value, bool):
+        return e.value
+    if isinstance(e, ast.Name) and e.id in env and isinstance(env[e.id][1], bool):
+        return env[e.id][1]
+    if isinstance(e, ast.UnaryOp) and isinstance(e.op, ast.Not):
+        v = _flag_value(e.operand, env)
+        return None if v is None else (not v)
+    if isinstance(e, ast.BoolOp):
+        vs = [_flag_value(x, env) for x in e.values]
+        if isinstance(e.op, ast.And):
+            if any(v is False for v in vs):
+                return False
+            return True if all(v is True for v in vs) else None
+        if any(v is True for v in vs):
+            return True
+        return False if all(v is False for v in vs) else None
+    return None
+
+
 def feasible(path):
     """False when a test on a local flag contradicts the constant assigned to it earlier on the path."""
     env = {}
@@ -271,7 +292,12 @@ def feasible(path):
                 if isinstance(st.value, ast.Constant) and (isinstance(st.value.value, bool) or st.value.value is None):
                     env[nm] = ("c", st.value.value)
                 else:
-                    env.pop(nm, None)
+                    # flag algebra: `ok = ok and found`, `bad = not ok`, ... with what is known about the operands
+                    v = _flag_value(st.value, env)
+                    if v is None:
+                        env.pop(nm, None)
+                    else:
+                        env[nm] = ("c", v)
             elif isinstance(st, (ast.AugAssign,)) and isinstance(st.target, ast.Name):
                 env.pop(st.target.id, None)
             elif isinstance(st, (ast.For,)):
